@@ -433,7 +433,7 @@ func runMount(e *ev.Env) {
 		checkMounted(e, c, p, corpusGen([]int{0}, []int{0}), [][2]string{{"GET", "/a/b"}, {"GET", "/a/b/"}, {"GET", "/a/b/x"}, {"GET", "/a/bx"}})
 	})
 
-	e.Cases("trees", e.N(300, 15000), func(c *ev.Case) {
+	e.Cases("trees", e.N(3000, 150000), func(c *ev.Case) {
 		r := c.R
 		g := &mgen{r: r, budget: 14, inSub: map[int]bool{}, subRootUse: map[int]bool{}}
 		p := &mprog{Cfg: Cfg{CaseSensitive: r.Bool(), Strict: r.Bool(), Unescape: r.Chance(1, 4), CustomCtx: r.Chance(1, 4)}}
@@ -468,7 +468,7 @@ func runMount(e *ev.Env) {
 		e.Sample("tree", map[string]any{"cfg": p.Cfg.String(), "shape": shape, "root_statements": len(p.Root)})
 	})
 
-	e.Cases("groups", e.N(300, 15000), func(c *ev.Case) {
+	e.Cases("groups", e.N(2000, 100000), func(c *ev.Case) {
 		r := c.R
 		g := &mgen{r: r, budget: 12, inSub: map[int]bool{}, subRootUse: map[int]bool{}}
 		p := &mprog{Cfg: Cfg{CaseSensitive: r.Bool(), Strict: r.Bool(), CustomCtx: r.Chance(1, 4)}}
